@@ -82,12 +82,18 @@ Inductive op :=
 | OStall (c ms : Z)                        (* the client stops reading for ms milliseconds from now *)
 | OKey (c v : Z)                           (* set the routing key of c (acknowledged before the next op) *)
 | OProto                                   (* the case runs with the protobuf client serializer (anywhere in the list) *)
-| OSend (c ty n1 n2 tag : Z) (pads : list Z) (rpad mode : Z) (targets : list Z).
+| OSend (c ty n1 n2 tag : Z) (pads : list Z) (rpad mode : Z) (targets : list Z) (later : bool) (kick : Z).
     (* pipelined request: n1 pushes, the response, n2 pushes.  Push number q is padded with
        [pad_at pads q] bytes (pads is repeated cyclically: sizes vary WITHIN one handler's issue
        sequence; a negative entry = a message without content), the response with rpad bytes.  mode 0: each push goes to the
        requester (PushMessageById); mode 1: to the connected ones among [targets]
-       (PushMessageByIds); mode 2: broadcast through a channel holding them (Channel.PushMessage) *)
+       (PushMessageByIds); mode 2: broadcast through a channel holding them (Channel.PushMessage).
+       later: the handler returns without completing and issues the whole sequence (n1 pushes, the
+       completion, n2 pushes) in a LATER turn of its service - the issue order is the same, when
+       the handler completes is no part of it.
+       kick <> 0: before anything else the handler kicks connection [kick] (another, connected
+       one) - the front-end closes it at once but still holds its session when the pushes that
+       list it are handled; it gets none of them, every other target all of them. *)
 
 Inductive ev :=
 | EPush (inst tag seq ctr cnt size : Z)    (* cnt consecutive pushes seq.., issue counters ctr.., all padded with size bytes *)
@@ -128,7 +134,7 @@ Definition conn_step (cs : alist Z) (o : op) : alist Z :=
   match o with
   | OConn c _ => match aget c cs with None => aset c 0 cs | Some _ => cs end
   | OKey c v => match aget c cs with Some _ => aset c v cs | None => cs end
-  | OStall _ _ | OProto | OSend _ _ _ _ _ _ _ _ _ => cs
+  | OStall _ _ | OProto | OSend _ _ _ _ _ _ _ _ _ _ _ => cs
   end.
 
 Definition connected (cs : alist Z) (c : Z) : bool :=
@@ -136,28 +142,52 @@ Definition connected (cs : alist Z) (c : Z) : bool :=
 
 Definition conns_of (ops : list op) : alist Z := fold_left conn_step ops [].
 
+(* connected and not closed by a kick *)
+Definition alive (cs : alist Z) (dead : list Z) (c : Z) : bool :=
+  connected cs c && negb (existsb (Z.eqb c) dead).
+
+(* the connection a request's handler kicks, if the handler runs and the kick means anything *)
+Definition kicked (cs : alist Z) (dead : list Z) (o : op) : option Z :=
+  match o with
+  | OSend c ty _ _ _ _ _ _ _ _ kick =>
+      match aget c cs with
+      | Some key =>
+          match target ty key with
+          | Some _ => if alive cs dead c && alive cs dead kick && negb (Z.eqb kick c) then Some kick else None
+          | None => None
+          end
+      | None => None
+      end
+  | _ => None
+  end.
+
+Definition dead_step (cs : alist Z) (dead : list Z) (o : op) : list Z :=
+  match kicked cs dead o with Some k => k :: dead | None => dead end.
+
 (* everything the issuers issue, grouped by issuer, in the order of the client operations *)
-Fixpoint issue_from (cs : alist Z) (ops : list op) : list item :=
+Fixpoint issue_from (cs : alist Z) (dead : list Z) (ops : list op) : list item :=
   match ops with
   | [] => []
   | o :: r =>
       (match o with
-       | OSend c ty n1 n2 tag pads rpad mode targets =>
-           match aget c cs with
-           | Some key =>
-               match target ty key with
-               | Some i => script i c tag n1 n2 pads rpad
-                             (if Z.eqb mode 0 then [c] else filter (connected cs) targets)
-               | None => [mkItem front c KErr 0 0 0]     (* no target: the front answers an error *)
-               end
-           | None => []
-           end
+       | OSend c ty n1 n2 tag pads rpad mode targets _ _ =>
+           if alive cs dead c then
+             match aget c cs with
+             | Some key =>
+                 match target ty key with
+                 | Some i => script i c tag n1 n2 pads rpad
+                               (if Z.eqb mode 0 then [c] else filter (alive cs (dead_step cs dead o)) targets)
+                 | None => [mkItem front c KErr 0 0 0]     (* no target: the front answers an error *)
+                 end
+             | None => []
+             end
+           else []
        | _ => []
-       end) ++ issue_from (conn_step cs o) r
+       end) ++ issue_from (conn_step cs o) (dead_step cs dead o) r
   end.
 
 Definition issue_log (ops : list op) (i : Z) : list item :=
-  filter (fun x => Z.eqb (it_iss x) i) (issue_from [] ops).
+  filter (fun x => Z.eqb (it_iss x) i) (issue_from [] [] ops).
 
 Definition issue_logs (ops : list op) : qmap :=
   map (fun i => (i, issue_log ops i)) [0; 1; 2; 3].
